@@ -42,7 +42,7 @@ func configs(r *runner.Run) []qmodel.Config {
 	base := []qmodel.Config{
 		{},
 		{MaxDepth: 2, DropOldest: true, RetentionMaxAge: 10 * sec, PruneInterval: sec},
-		{MaxDepth: 2, DeliveredMaxAge: 10 * sec, DLQMaxAge: 10 * sec, DLQMaxDepth: 1, PruneInterval: sec},
+		{MaxDepth: 2, DeliveredMaxAge: 10 * sec, DLQMaxDepth: 1, PruneInterval: sec},
 	}
 	if r.Quick() {
 		return base
@@ -50,7 +50,7 @@ func configs(r *runner.Run) []qmodel.Config {
 	var all []qmodel.Config
 	for _, lim := range []qmodel.Config{{}, {MaxDepth: 2}, {MaxDepth: 2, DropOldest: true}} {
 		for _, ret := range []qmodel.Config{{}, {RetentionMaxAge: 10 * sec, PruneInterval: sec}, {DeliveredMaxAge: 10 * sec, PruneInterval: sec},
-			{DLQMaxAge: 10 * sec, DLQMaxDepth: 1, PruneInterval: sec}} {
+			{DLQMaxAge: 10 * sec, DLQMaxDepth: 1, PruneInterval: sec}, {DLQMaxDepth: 2, PruneInterval: sec}} {
 			c := ret
 			c.MaxDepth, c.DropOldest = lim.MaxDepth, lim.DropOldest
 			all = append(all, c)
@@ -63,20 +63,43 @@ type job struct {
 	backend string
 	depth   int
 	cfg     qmodel.Config
+	focus   string // "" = full alphabet; "dlq" = small alphabet centred on dead-lettering and DLQ retention
+}
+
+// dlqAlpha: two messages with equal received_at (batch), dead-lettered singly or as a batch, DLQ listing / requeue /
+// delete and clock steps over the prune interval and the DLQ age: reaches DLQ depth/age prunes (incl. ties at the
+// depth boundary) two levels deeper than the full alphabet does in the same budget.
+func dlqAlpha() qcheck.Alpha {
+	return qcheck.Alpha{
+		IDs: []string{"a", "b", "c"}, Routes: []string{"/r1"}, Targets: []string{"t1"},
+		EnqBatch: true,
+		Deq:      []qcheck.DeqSpec{{Batch: 3, TTL: 2 * sec}},
+		LeaseOps: []string{"dead"}, LeaseBatch: true, MaxHandles: 3,
+		Operator: []string{"rqdead", "deldead"},
+		Reads:    []string{"listdead", "stats"},
+		Ticks:    []time.Duration{sec, 10 * sec},
+	}
 }
 
 func TestCheck(t *testing.T) {
 	r := runner.Start("C02", "model_checking")
 	var jobs []job
 	for _, cfg := range configs(r) {
-		jobs = append(jobs, job{"memory", runner.Pick(r, 5, 6), cfg}, job{"sqlite", runner.Pick(r, 4, 5), cfg})
+		jobs = append(jobs, job{"memory", runner.Pick(r, 5, 6), cfg, ""}, job{"sqlite", runner.Pick(r, 4, 5), cfg, ""})
+	}
+	for _, cfg := range []qmodel.Config{{DLQMaxDepth: 1, PruneInterval: sec}, {DLQMaxDepth: 2, DLQMaxAge: 10 * sec, PruneInterval: sec}} {
+		jobs = append(jobs, job{"memory", runner.Pick(r, 6, 7), cfg, "dlq"}, job{"sqlite", runner.Pick(r, 5, 6), cfg, "dlq"})
 	}
 	par := 12
 	waves := (len(jobs) + par - 1) / par
 	budget := runner.Pick(r, 70*time.Second, 13*time.Minute) / time.Duration(waves)
 	if ji, ok := runner.Job(); ok {
 		j := jobs[ji]
-		spec := qcheck.Spec{Name: "c02", Backend: j.backend, Cfg: j.cfg, Alpha: alpha(), Depth: j.depth, Workers: 4,
+		al, name := alpha(), "c02"
+		if j.focus == "dlq" {
+			al, name = dlqAlpha(), "c02-dlq"
+		}
+		spec := qcheck.Spec{Name: name, Backend: j.backend, Cfg: j.cfg, Alpha: al, Depth: j.depth, Workers: 4,
 			MaxTrans: runner.Pick(r, int64(3_000_000), int64(40_000_000)), Deadline: time.Now().Add(budget)}
 		res := qcheck.Run(spec)
 		for e := range res.Edges {
